@@ -148,6 +148,8 @@ CORPUS = [
          lines=["p 0 5", "D", "g 0", "I", "p 0 6", "D", "x 0", "D", "p 1 1", "I"]),
     dict(family="corpus-threshold", cap=0, kind=0, tab=None, keys=list(range(0, 12)),
          lines=["R 9 p 1 1 1", "d", "p 10 1", "d", "p 11 1", "d", "p 11 1", "d", "D", "I"]),
+    dict(family="corpus-parents", cap=0, kind=0, tab=None, keys=list(range(0, 333)),       # every bucket < 128 through GET_PARENT
+         lines=["R 330 a 1 1 1", "D", "g 33", "g 97", "x 65", "D", "I"]),
     dict(family="corpus-cap3", cap=3, kind=0, tab=None, keys=[0, 1], lines=["R 30 p 1 1 0", "d", "D"]),
     dict(family="corpus-signext", cap=16, kind=6, tab={0: 0, 1: -1, 2: -(1 << 31), 3: (1 << 31) - 1, 4: -2, 5: 1}, keys=[0, 1, 2, 3, 4, 5],
          lines=["p 1 1", "p 2 2", "p 3 3", "p 4 4", "p 5 5", "D", "R 40 p 1 9 0", "D", "g 2", "g 3", "x 4", "D", "I"]),
@@ -367,6 +369,14 @@ def gen_conc(rng, wl):
     return dict(tasks=tasks, kind=kind, cap=cap, K=K, prob=rng.choice([40, 90, 140, 200]), seed=rng.next() & 0xffffffff, workload=wl)
 
 
+# minimal witnesses of the open findings (deterministic on 1 shepherd x 1 worker); always run first
+CONC_CORPUS = [
+    dict(tasks=[[], [("x", 1, 105)], [("a", 1, 110)]], kind=1, cap=2, K=1, prob=90, seed=2788162737, workload="delete-no-put"),
+    dict(tasks=[[("p", 2, 102)], [("p", 2, 107)], [("a", 1, 113)]], kind=1, cap=0, K=2, prob=200, seed=3496510089, workload="put-no-delete"),
+    dict(tasks=[[], [("p", 2, 110)], [("p", 2, 112), ("a", 1, 114)]], kind=1, cap=4, K=2, prob=200, seed=1651698045, workload="mixed"),
+]
+
+
 def conc_script(c, spin):
     s = ["N %d %d" % (c["cap"], c["kind"]), "c"]
     for t, l in enumerate(c["tasks"]):
@@ -410,15 +420,20 @@ def conc_class(c):
     return WORKLOADS[c["workload"]][1]
 
 
-def run_conc(exe, c, env, spin, timeout=90):
+def run_conc(exe, c, env, spin, timeout=40):
     """one process per case: a crash / corrupted pool cannot leak into the next case"""
     rc, out, err = core.run_lines(exe, conc_script(c, spin) + ["Q"], timeout=timeout, env=env)
     return conc_eval(c, out)
 
 
-def minimise_conc(exe, c, env, key, spin, tries=3):
+def minimise_conc(exe, c, env, key, spin, tries=3, budget_s=12.0):
     """drop ops (from the end of each task list) while the same key stays non-linearizable in `tries` runs out of `tries`"""
+    import time
+    t_end = time.time() + budget_s
+
     def bad(cc):
+        if time.time() > t_end:
+            return False
         for _ in range(tries):
             r = run_conc(exe, cc, env, spin, timeout=60)
             if r is None or key not in r:
@@ -540,12 +555,13 @@ def run(ctx):
     wl_hist = {}
     r4 = rng.fork()
     configs = [(1, 1, 0), (2, 2, 1), (4, 1, 1)] if quick else [(1, 1, 0), (2, 2, 1), (4, 1, 1), (2, 1, 1), (1, 4, 1)]
-    per = (120, 30) if quick else (1200, 200)
+    per = (100, 15) if quick else (1200, 200)
     wls = ["insert-only", "put-no-delete", "delete-no-put", "mixed", "insert-only"]
     for ci, (ns, nw, spin) in enumerate(configs):
         env = core.qenv(ns, nw, stack=65536)
-        for j in range(per[0] if ci == 0 else per[1]):
-            c = gen_conc(r4, wls[j % len(wls)])
+        fixed = CONC_CORPUS if ci == 0 else []
+        for j in range(len(fixed) + (per[0] if ci == 0 else per[1])):
+            c = fixed[j] if j < len(fixed) else gen_conc(r4, wls[j % len(wls)])
             wl_hist[c["workload"]] = wl_hist.get(c["workload"], 0) + 1
             conc_runs += 1
             conc_ops += sum(len(l) for l in c["tasks"])
@@ -555,8 +571,10 @@ def run(ctx):
                 continue
             for k, h in res.items():
                 conc_bad.append((conc_class(c), (ns, nw, spin), c, k, h))
+        _t(ctx, "M4 config %dx%d done" % (ns, nw))
     _t(ctx, "M4 ran")
     # ---------------- verdict ----------------
+    corpus_reproduced = sorted(set(conc_class(c) for (sig, cfg, c, k, h) in conc_bad if c in CONC_CORPUS))
     ctx.cov.update(
         evaluations=evals + conc_runs, distinct_nontrivial=len(nontrivial),
         rule="M1 scripts: small key sets (1..16 keys) x 10 hash kinds (collision chains, sign-extended negative hashes, adversarial tables) "
@@ -565,6 +583,7 @@ def run(ctx):
         samples=samples, traces_validated_against_impl=evals, input_distribution=dict(families=fam_hist, hash_kinds=kind_hist, ops=opcount),
         max_table_size_reached=max_size, table_sizes_reached=sorted(growth_steps), correspondence_mismatches=len(mismatches),
         concurrent=dict(runs=conc_runs, operations=conc_ops, workloads=wl_hist, configs=[list(x) for x in configs],
+                        corpus_witnesses_reproduced=corpus_reproduced,
                         non_linearizable_histories=len(conc_bad), classes=sorted(set(b[0] for b in conc_bad)), died=len(conc_dead)),
         refuted_on_current_tree=["null_value_put_refuted", "null_key_put_refuted"])
     ctx.assumptions += ["sequential consistency; CAS/fetch-add atomic (C18)", "user hash/equals are pure functions, equals decides identity of keys",
@@ -601,7 +620,7 @@ def run(ctx):
                 if rr is not None and k in rr:
                     confirmed += 1
             if confirmed == 3:
-                small = minimise_conc(exe, c, env, k, 0)
+                small = minimise_conc(exe, c, env, k, 0, budget_s=8.0 if quick else 40.0)
                 rr = run_conc(exe, small, env, 0, timeout=60)
                 if rr and k in rr:
                     h = rr[k]
